@@ -42,6 +42,7 @@ type dirRepo struct {
 	wgBlock   chan struct{}
 	timeCheck time.Time
 	timeMod   time.Time
+	timeBlob  time.Time // last blob upload activity, timeMod is reset to the index.json mod time when the index is loaded
 	name      string
 	path      string
 	exists    bool
@@ -265,7 +266,7 @@ func (d *dir) gc(cur, prev time.Time) error {
 		}
 		// skip repos that were have not been recently updated
 		repo.mu.Lock()
-		outsideRange := repo.timeMod.Before(start)
+		outsideRange := repo.timeMod.Before(start) && repo.timeBlob.Before(start)
 		repo.mu.Unlock()
 		if outsideRange {
 			continue
@@ -435,6 +436,7 @@ func (dr *dirRepo) BlobCreate(opts ...BlobOpt) (BlobCreator, string, error) {
 		sessionID: sessionID,
 	}
 	dr.timeMod = time.Now()
+	dr.timeBlob = dr.timeMod
 	dr.uploads.Set(sessionID, bc)
 	return bc, sessionID, nil
 }
@@ -815,6 +817,7 @@ func (dru *dirRepoUpload) delete() error {
 	go func() {
 		dru.dr.mu.Lock()
 		dru.dr.timeMod = time.Now()
+		dru.dr.timeBlob = dru.dr.timeMod
 		dru.dr.mu.Unlock()
 	}()
 	// always return nil, even on errors, to allow entry to be removed from upload session list
